@@ -1,6 +1,6 @@
 use std::borrow::Cow;
 
-use syn::{parse_quote_spanned, spanned::Spanned};
+use syn::{ext::IdentExt, parse_quote_spanned, spanned::Spanned};
 
 use crate::codegen;
 use crate::options::{Core, DefaultExpression, ParseAttribute};
@@ -31,7 +31,7 @@ impl InputField {
             name_in_attr: self
                 .attr_name
                 .as_ref()
-                .map_or_else(|| Cow::Owned(self.ident.to_string()), Cow::Borrowed),
+                .map_or_else(|| Cow::Owned(self.ident.unraw().to_string()), Cow::Borrowed),
             ty: &self.ty,
             default_expression: self.as_codegen_default(),
             with_callable: self.with.as_ref().map(|w| w.as_ref()).map_or_else(
@@ -94,7 +94,12 @@ impl InputField {
         // explicit renamings take precedence over rename rules on the container,
         // but in the absence of an explicit name we apply the rule.
         if self.attr_name.is_none() {
-            self.attr_name = Some(parent.rename_rule.apply_to_field(self.ident.to_string()));
+            // The `r#` of a raw identifier is spelling, not part of the field's name.
+            self.attr_name = Some(
+                parent
+                    .rename_rule
+                    .apply_to_field(self.ident.unraw().to_string()),
+            );
         }
 
         // Determine the default expression for this field, based on three pieces of information:
